@@ -95,6 +95,7 @@ pub fn programs(tier: Tier) -> ProgramSet {
                 s.variants[0].kind = Kind::Tuple(vec![FieldTy::T]);
                 true
             }));
+            devs.extend(crate::devs::rich_generic_devs(false));
             let dis: Vec<String> = (0..n).filter(|i| mask & (1 << i) != 0).map(|i| i.to_string()).collect();
             let label = format!("B{} disabled={{{}}}", n, dis.join(","));
             let (specs, _) = enumerate(&base, &label, &devs, k, &|s: &EnumSpec| {
